@@ -20,6 +20,9 @@ pub(crate) fn convert(
         return None;
     }
 
+    // Break reference cycles.
+    let state = &state.enter_def(node)?;
+
     let units = node
         .attribute(AId::MaskUnits)
         .unwrap_or(Units::ObjectBoundingBox);
